@@ -11,12 +11,20 @@ pub(super) fn list_of_log_and_compressed_files(
     file_spec: &FileSpec,
     infix_filter: &InfixFilter,
 ) -> Vec<PathBuf> {
-    existing_log_files(
+    let mut files = existing_log_files(
         file_spec,
         true,
         infix_filter,
         &LogfileSelector::default().with_compressed_files(),
-    )
+    );
+    // newest first, whether compressed or not: after an interrupted or failed cleanup
+    // an uncompressed file can be older than a compressed one
+    files.sort_by(|a, b| {
+        file_spec
+            .name_without_suffix(b)
+            .cmp(&file_spec.name_without_suffix(a))
+    });
+    files
 }
 
 pub(super) fn existing_log_files(
